@@ -659,13 +659,17 @@ fn random_case<const L: usize>(c: &Case, rep: &mut Rep) {
         rep.fail("Odd<Uint>::random.odd", "returned an even value".into());
     }
     let mut r = ScriptRng::new(script.clone(), seed);
-    let bl_ = 1 + (seed % (64 * L as u64)) as u32;
+    // every bit length including 0 (where the only admissible odd value is 1)
+    let bl_ = if seed % 5 == 0 { 0 } else { (seed % (64 * L as u64 + 1)) as u32 };
+    if bl_ == 0 {
+        rep.class("odd_random_bit_length_0");
+    }
     let ob = Odd::<BoxedUint>::random(&mut r, bl_);
     let obv = bl(&ob.get());
     if obv[0] & 1 == 0 {
-        rep.fail("Odd<BoxedUint>::random.odd", "returned an even value".into());
+        rep.fail("Odd<BoxedUint>::random.odd", format!("returned an even value for bit_length {}", bl_));
     }
-    if bits_of(&obv) as u32 > bl_ {
+    if bl_ > 0 && bits_of(&obv) as u32 > bl_ {
         rep.fail("Odd<BoxedUint>::random.lt_2pow_bit_length", format!("bit_length {} got {}", bl_, hex(&obv)));
     }
     // failing streams: the error is propagated, never a panic
